@@ -37,6 +37,8 @@ APIS = {'imap': ('imap', 'map', 'imap2'), 'star1': ('starmap', 'starcall'), 'sta
 SIG_SEQ = {'kind': 'exception-yielded-as-value', 'path': 'sequential branch (pool size < 2)', 'mode': 'raise'}
 SIG_STAR = {'kind': 'items-dropped', 'entry': 'starmap/starcall',
             'cause': 'single-call shortcut chosen by the arity of the first argument tuple'}
+SIG_REUSE = {'kind': 'result-of-an-earlier-call', 'path': 'pool', 'cause': 'queues of the pool object shared by all calls'}
+GOOD = {'SeqRaises': True, 'StarByCount': True, 'FreshQueues': True}
 
 
 # --------------------------------------------------------------------------------------------
@@ -47,20 +49,25 @@ class HarnessBlocked(Exception):
 
 
 class ItemError(Exception):
-    def __init__(self, i):
+    def __init__(self, i, key=None):
         Exception.__init__(self, 'item %d failed' % i)
         self.i = i
+        self.key = i if key is None else key
 
 
 class Arg(object):
-    def __init__(self, i):
+    """argument of an item: i = pool-wide identity of the item, key = its index in its call"""
+
+    def __init__(self, i, key=None):
         self.i = i
+        self.key = i if key is None else key
 
 
 class Val(object):
-    def __init__(self, i, serial):
+    def __init__(self, i, serial, key=None):
         self.i = i
         self.serial = serial
+        self.key = i if key is None else key
 
 
 _WORLD = [None]
@@ -75,13 +82,13 @@ class IQueue(_queue.Queue):
         self._role = self._w.new_queue(self)
 
     def put(self, item, block=True, timeout=None):
-        self._w.sched.point('put', q=self._role)
+        self._w.sched.point('put', q=self._role, qo=self)
         return _queue.Queue.put(self, item, block, timeout)
 
     def get(self, block=True, timeout=None):
         w = self._w
         blocking = block and timeout is None
-        w.sched.point('get' if blocking else 'get_nowait', q=self._role)
+        w.sched.point('get' if blocking else 'get_nowait', q=self._role, qo=self)
         t = w.sched.me()
         if blocking and t is not None and self.qsize() == 0:
             raise HarnessBlocked('get on empty %s queue' % self._role)
@@ -91,17 +98,17 @@ class IQueue(_queue.Queue):
         return item
 
     def empty(self):
-        self._w.sched.point('empty', q=self._role)
+        self._w.sched.point('empty', q=self._role, qo=self)
         return _queue.Queue.empty(self)
 
     def join(self):
-        self._w.sched.point('join', q=self._role)
+        self._w.sched.point('join', q=self._role, qo=self)
         if self._w.sched.me() is not None and self.unfinished_tasks:
             raise HarnessBlocked('join with unfinished tasks')
         return _queue.Queue.join(self)
 
     def task_done(self):
-        self._w.sched.point('task_done', q=self._role)
+        self._w.sched.point('task_done', q=self._role, qo=self)
         return _queue.Queue.task_done(self)
 
 
@@ -113,14 +120,22 @@ class _QueueModule(object):
 
 
 class PoolWorld(object):
-    """One call of the real ThreadPool: n items, failing set, mode, pool size, entry point."""
+    """Calls of the real ThreadPool: n items, failing set, mode, pool size, entry point; `more`: further calls on the
+    same pool object ([{n, fail, raise_mode, entry, api}], fail = indices within that call).  Items have a pool-wide
+    identity (base of the call + index); self.fail / self.none hold identities."""
 
-    def __init__(self, n, fail, raise_mode, size, entry, api=None, body=None):
+    def __init__(self, n, fail, raise_mode, size, entry, api=None, body=None, more=None):
         import mapproxy.util.async_ as amod
         self.body = body          # end-to-end mode: the caller runs body(world) instead of a direct pool call
         self.amod = amod
         self.n, self.fail, self.raise_mode, self.size, self.entry = n, frozenset(fail), bool(raise_mode), size, entry
         self.api = api or APIS[entry][0]
+        self.first = {'n': n, 'fail': sorted(self.fail), 'raise': self.raise_mode, 'size': size, 'entry': entry, 'api': self.api}
+        self.plan = [None] + [dict(c) for c in (more or [])]
+        self.callno = 0
+        self.base = 0
+        self.judged = []
+        self.wobj = {}
         # items whose REGULAR result is None (a blank tile in TileCreator._create_bulk_meta_tile is such a result):
         # every second world has some, so that "no result buffered" and "the buffered result is None" stay apart
         self.none = frozenset(i for i in range(n) if i % 3 == 1 and i not in self.fail) if (n + size + len(self.fail)) % 2 == 0 \
@@ -177,15 +192,24 @@ class PoolWorld(object):
         if self.body is not None and len(self.queues) >= 2:
             self.queues = []          # end-to-end mode: a new pool per call of the code under test
         self.queues.append(q)
-        return 'task' if len(self.queues) == 1 else ('result' if len(self.queues) == 2 else 'other')
+        # a pool creates its queues in pairs, task queue first (in __init__; a tree that gives every call its own
+        # queues creates another pair per call): the latest complete pair is the one of the current call
+        return 'task' if len(self.queues) % 2 == 1 else 'result'
 
     @property
     def tq(self):
-        return self.queues[0] if self.queues else None
+        k = len(self.queues) // 2 * 2
+        return self.queues[k - 2] if k >= 2 else (self.queues[0] if self.queues else None)
 
     @property
     def rq(self):
-        return self.queues[1] if len(self.queues) > 1 else None
+        k = len(self.queues) // 2 * 2
+        return self.queues[k - 1] if k >= 2 else None
+
+    def detached(self, name):
+        """a worker of an earlier call that works on queues the current call does not use"""
+        wo = self.wobj.get(name)
+        return wo is not None and self.body is None and getattr(wo, 'task_queue', None) is not self.tq
 
     def register(self, worker):
         name = 'w%d' % (len(self.workers) + 1)
@@ -194,6 +218,7 @@ class PoolWorld(object):
         worker._bt = t
         self.sched.ts[name] = t
         self.workers.append(name)
+        self.wobj[name] = worker
 
     def close(self):
         try:
@@ -214,15 +239,36 @@ class PoolWorld(object):
             self.serial += 1
             serial = self.serial
         if a.i in self.fail:
-            raise ItemError(a.i)
+            raise ItemError(a.i, a.key)
         if a.i in self.none:
             return None
-        return Val(a.i, serial)
+        return Val(a.i, serial, a.key)
 
     def _consumer(self):
+        self._one_call()
+        for k in range(1, len(self.plan)):
+            self.sched.point('newcall', q='-')
+            self._switch(self.plan[k])
+            self.sched.point('start')
+            self._one_call()
+        return 'done'
+
+    def _switch(self, c):
+        """the call has ended; the next call on the same pool object begins"""
+        self.judged.append(self.judge(switching=True))
+        self.base += self.n
+        self.callno += 1
+        self.n, self.raise_mode, self.entry = c['n'], bool(c['raise_mode']), c['entry']
+        self.api = c.get('api') or APIS[c['entry']][0]
+        self.fail = frozenset(self.fail | set(self.base + i for i in c['fail']))
+        self.out = []
+        self.raised = -1
+        self.calls = []
+
+    def _one_call(self):
         pool, f, n = self.pool, self._item, self.n
         kw = {} if self.raise_mode else {'use_result_objects': True}
-        items = [Arg(i) for i in range(n)]
+        items = [Arg(self.base + i, i) for i in range(n)]
         try:
             if self.api == 'map':
                 res = pool.map(f, items, **kw)
@@ -245,12 +291,11 @@ class PoolWorld(object):
                 self.out.append(self.project(v))
         except ItemError as ex:
             self.raised = ex.i
-        return 'done'
 
     def project(self, v):
         """what the caller received -> [kind, item]; a None result is attributed to the position it arrives at
         (legitimate only if that item returns None)"""
-        pos = len(self.out)
+        pos = self.base + len(self.out)
         if not self.raise_mode:
             if not isinstance(v, self.amod.AsyncResult):
                 return ['bad', -1]
@@ -276,11 +321,11 @@ class PoolWorld(object):
             i, func, args = t
             a = args[0]
             if isinstance(a, Arg):
-                return i if a.i == i else -2
+                return a.i if a.key == i else -2
             if callable(a) and len(args) >= 2 and isinstance(args[1], Arg):     # starcall: (f, Arg)
-                return i if args[1].i == i else -2
+                return args[1].i if args[1].key == i else -2
             if callable(a) and len(args) == 1:                                   # starcall with thunks
-                return i if a.__defaults__[0].i == i else -2
+                return a.__defaults__[0].i if a.__defaults__[0].key == i else -2
             return -2
         except Exception:
             return -2
@@ -289,11 +334,11 @@ class PoolWorld(object):
         try:
             i, res = r
             if isinstance(res, Val):
-                return i if (res.i == i and i not in self.fail) else -2
+                return res.i if (res.key == i and res.i not in self.fail) else -2
             if res is None:
-                return i if i in self.none else -2
+                return self.base + i if (self.base + i) in self.none else -2
             if isinstance(res, tuple) and len(res) == 3 and isinstance(res[1], ItemError):
-                return i if (res[1].i == i and i in self.fail) else -2
+                return res[1].i if (res[1].key == i and res[1].i in self.fail) else -2
             return -2
         except Exception:
             return -2
@@ -303,8 +348,11 @@ class PoolWorld(object):
         tq = [(-1 if t is None else self.task_id(t)) for t in list(self.tq.queue)]
         rq = [self.result_id(r) for r in list(self.rq.queue)]
         wn = {'start': 0, 'idle': 0, 'gotNone': 0, 'exited': 0}
-        hold = ['-'] * self.n
+        nn = self.base + self.n
+        hold = ['-'] * nn
         for name in self.workers:
+            if self.detached(name):
+                continue
             t = self.sched.ts[name]
             p = None if t.finished else t.pending
             if p is None:
@@ -315,19 +363,19 @@ class PoolWorld(object):
                 wn['start'] += 1
             elif p[0] == 'get' and p[1].get('q') == 'task':
                 wn['idle'] += 1
-            elif p[0] == 'put' and p[1].get('q') == 'result' and isinstance(t.got, int) and 0 <= t.got < self.n:
+            elif p[0] == 'put' and p[1].get('q') == 'result' and isinstance(t.got, int) and 0 <= t.got < nn:
                 hold[t.got] = 'put'
             elif p[0] == 'task_done' and p[1].get('q') == 'task' and t.got == 'none':
                 wn['gotNone'] += 1
-            elif p[0] == 'task_done' and p[1].get('q') == 'task' and isinstance(t.got, int) and 0 <= t.got < self.n:
+            elif p[0] == 'task_done' and p[1].get('q') == 'task' and isinstance(t.got, int) and 0 <= t.got < nn:
                 hold[t.got] = 'taskDone'
             else:
                 msg = 'worker %s at an unexpected point %r (holding %r)' % (name, p, t.got)
                 if msg not in self.problems:
                     self.problems.append(msg)
         c = self.sched.ts['consumer']
-        done = bool(c.finished)
-        if done and c.exc is not None:
+        done = bool(c.finished) or (c.pending is not None and c.pending[0] == 'newcall')
+        if c.finished and c.exc is not None:
             msg = 'the call raised %r' % (c.exc,)
             if msg not in self.problems:
                 self.problems.append(msg)
@@ -349,10 +397,10 @@ class PoolWorld(object):
         op, info = t.pending
         q = info.get('q')
         if op == 'get':
-            qq = self.tq if q == 'task' else self.rq
+            qq = info.get('qo') or (self.tq if q == 'task' else self.rq)
             return qq.qsize() > 0
         if op == 'join':
-            qq = self.tq if q == 'task' else self.rq
+            qq = info.get('qo') or (self.tq if q == 'task' else self.rq)
             return qq.unfinished_tasks == 0
         return True
 
@@ -365,8 +413,19 @@ class PoolWorld(object):
         item = -1
         if name != 'consumer' and isinstance(getattr(t, 'got', None), int) and op in ('put', 'task_done'):
             item = t.got
+        if name != 'consumer' and self.detached(name):
+            # works on the queues of an earlier call: no step of the model (the model dropped it when the current
+            # call got its own queues); whatever it still does must not show in the state of the current call
+            self.sched.step(name)
+            if op == 'task_done' and not t.finished:
+                t.got = None
+            self.schedule.append(name)
+            return None
+        nxt = self.plan[self.callno + 1] if op == 'newcall' else None
         self.sched.step(name)
         ev = {'c': name, 'op': op, 'q': info.get('q', '-'), 'item': item}
+        if nxt is not None:
+            ev['call'] = {'n': nxt['n'], 'fail': sorted(nxt['fail']), 'raise': bool(nxt['raise_mode']), 'entry': nxt['entry']}
         if self.body is None:
             ev.update(self.snapshot())
         if name != 'consumer' and op == 'task_done' and not t.finished:
@@ -393,43 +452,56 @@ class PoolWorld(object):
         return self.all_finished()
 
     def header(self):
-        return {'n': self.n, 'fail': sorted(self.fail), 'raise': self.raise_mode, 'size': self.size,
-                'entry': self.entry, 'api': self.api}
+        h = dict(self.first)
+        if len(self.plan) > 1:
+            h['more'] = [dict(c) for c in self.plan[1:]]
+        return h
 
     def record(self):
-        h = self.header()
+        h = dict(self.first)
         h['ev'] = self.events
         return h
 
     # ---- the property, stated on observed values only ------------------------------------------
-    def judge(self):
+    def judge(self, switching=False):
         """None if what the caller observed satisfies the property statement, else (class, text)."""
+        for j in self.judged:
+            if j is not None:
+                return j
         c = self.sched.ts['consumer']
         exp_kind = lambda i: 'exc' if i in self.fail else 'val'  # noqa
-        if not c.finished:
+        if not c.finished and not switching:
             return ('not-terminated', 'the call did not terminate: caller waits at %r, nobody can move' % (c.pending,))
         if c.exc is not None:
             return ('unexpected-exception', 'the call raised %r' % (c.exc,))
-        for p, (k, i) in enumerate(self.out):
+        cur = set(range(self.base, self.base + self.n))
+        tag = '' if not self.callno else 'call %d on the same pool object (items %d..%d): ' % (
+            self.callno + 1, self.base, self.base + self.n - 1)
+        j = self._judge_call(cur, exp_kind)
+        return None if j is None else (j[0], tag + j[1])
+
+    def _judge_call(self, cur, exp_kind):
+        for q, (k, i) in enumerate(self.out):
+            p = self.base + q
             if self.raise_mode and k == 'exc' and i == p and i in self.fail:
                 return ('exception-as-value', 'raise mode: position %d of the results is the exc_info of item %d '
                                               'instead of the exception being raised; out=%r' % (p, i, self.out))
             if i != p or k != exp_kind(p):
                 return ('wrong-order-or-value', 'position %d of the results is %r (expected %r); out=%r' % (
                     p, [k, i], [exp_kind(p), p], self.out))
-        if self.raise_mode and self.fail:
-            if self.raised not in self.fail:
+        if self.raise_mode and (self.fail & cur):
+            if self.raised not in (self.fail & cur):
                 return ('exception-swallowed', 'raise mode, failing items %s: no exception of a failing item reached the '
-                                               'caller (raised=%s, out=%r)' % (sorted(self.fail), self.raised, self.out))
+                                               'caller (raised=%s, out=%r)' % (sorted(self.fail & cur), self.raised, self.out))
         else:
             if self.raised != -1:
                 return ('spurious-exception', 'exception of item %s raised although not expected' % self.raised)
             if len(self.out) != self.n:
                 return ('missing-results', '%d results for %d inputs: out=%r' % (len(self.out), self.n, self.out))
-            called = sorted(i for i, _ in self.calls)
-            if called != list(range(self.n)):
+            called = sorted(i for i, _ in self.calls if i in cur)
+            if called != sorted(cur):
                 return ('call-count', 'items were not called exactly once each: %r' % (called,))
-        called = [i for i, _ in self.calls]
+        called = [i for i, _ in self.calls if i in cur]
         if len(set(called)) != len(called):
             return ('call-count', 'an item was called more than once: %r' % (sorted(called),))
         return None
@@ -449,9 +521,18 @@ def model_path(entry, n, size, variants):
 KNOWN_JUDGEMENTS = {'seq': ('exception-as-value',), 'star': ('missing-results', 'exception-swallowed')}
 
 
+def _v(variants):
+    v = dict(GOOD)
+    v.update(variants or {})
+    return v
+
+
 def known_class(w, variants, judgement=None):
     """is the failure observed on world w the known effect of an as-written decision (reported once by the probes)?"""
+    variants = _v(variants)
     path = model_path(w.entry, w.n, w.size, variants)
+    if not variants['FreshQueues'] and w.callno >= 1:
+        return SIG_REUSE
     if not variants['SeqRaises'] and w.raise_mode and path == 'seq':
         if judgement is None or judgement in KNOWN_JUDGEMENTS['seq']:
             return SIG_SEQ
@@ -469,7 +550,8 @@ C_EXPECT = {'Dispatch': ('start', None), 'SingleCall': ('call', '-'), 'SeqCall':
             'CPutNone': ('put', 'task'), 'CEmptyT': ('empty', 'task'), 'CEmptyR': ('empty', 'result'),
             'CGet': ('get', 'result'), 'CJoin': ('join', 'task'), 'FEmptyT': ('empty', 'task'),
             'FGetTOk': ('get_nowait', 'task'), 'FGetTEmpty': ('get_nowait', 'task'), 'FDoneT': ('task_done', 'task'),
-            'FEmptyR': ('empty', 'result'), 'FGetR': ('get_nowait', 'result'), 'FDoneR': ('task_done', 'result')}
+            'FEmptyR': ('empty', 'result'), 'FGetR': ('get_nowait', 'result'), 'FDoneR': ('task_done', 'result'),
+            'NewCall': ('newcall', '-')}
 W_EXPECT = {'WStart': ('start', None), 'WGetTask': ('get', 'task'), 'WGetNone': ('get', 'task'), 'WPut': ('put', 'result'),
             'WTaskDone': ('task_done', 'task'), 'WExit': ('task_done', 'task')}
 
@@ -477,24 +559,40 @@ W_EXPECT = {'WStart': ('start', None), 'WGetTask': ('get', 'task'), 'WGetNone': 
 def parse_action(a):
     m = _ACT.match(a.strip())
     name = m.group(1)
+    if name == 'NewCallWith':
+        return 'NewCall', []
     args = [int(x) for x in m.group(2).split(',')] if m.group(2) else []
     return name, args
 
 
 def spec_obs(st):
-    n = st['n']
+    n = st['base'] + st['n']
     hold = st['hold']
     if isinstance(hold, dict):
         hold = [hold[i] for i in range(n)]
     else:
-        hold = list(hold)
+        hold = list(hold)[:n]
     return {'tq': list(st['taskQ']), 'rq': list(st['resultQ']), 'unf': st['unfinished'],
             'out': [list(x) for x in st['out']], 'raised': st['raised'], 'done': st['cpc'] == 'done',
             'wn': {k: st['wn'][k] for k in ('start', 'idle', 'gotNone', 'exited')}, 'hold': hold}
 
 
 def call_of(st):
-    return dict(n=st['n'], fail=sorted(st['fail']), raise_mode=st['raiseMode'], size=st['size'], entry=str(st['entry']))
+    b = st.get('base', 0)
+    return dict(n=st['n'], fail=sorted(i - b for i in st['fail'] if i >= b), raise_mode=st['raiseMode'], size=st['size'],
+                entry=str(st['entry']))
+
+
+def calls_of(beh):
+    """the first call of a behaviour and the calls that follow on the same pool object (states after NewCall)"""
+    c = call_of(beh[0][1])
+    more = []
+    for act, st in beh[1:]:
+        if parse_action(act)[0] == 'NewCall':
+            m = call_of(st)
+            m.pop('size')
+            more.append(m)
+    return c, more
 
 
 def pick_worker(w, name, args, rng):
@@ -502,7 +600,7 @@ def pick_worker(w, name, args, rng):
     cands = []
     for x in w.workers:
         t = w.sched.ts[x]
-        if t.finished:
+        if t.finished or w.detached(x):
             continue
         op, info = t.pending
         if op != want[0] or (want[1] is not None and info.get('q') != want[1]):
@@ -523,13 +621,22 @@ def replay_behaviour(beh, rng, api=None, keep_open=False):
     """Force behaviour `beh` ([(action, state)], first element = initial state) on the real ThreadPool.
 
     Returns (status, detail, world): 'ok' | 'diverged' | 'problem'."""
-    c = call_of(beh[0][1])
-    w = PoolWorld(c['n'], c['fail'], c['raise_mode'], c['size'], c['entry'], api=api)
+    c, more = calls_of(beh)
+    if rng is not None:
+        for m in more:
+            m['api'] = rng.choice(APIS[m['entry']])
+    w = PoolWorld(c['n'], c['fail'], c['raise_mode'], c['size'], c['entry'], api=api, more=more)
     k = 0
     try:
         for act, st in beh[1:]:
             k += 1
             name, args = parse_action(act)
+            if rng is not None:
+                # workers of an earlier call that work on queues of their own: they move whenever they like
+                loose = [x for x in w.workers if w.detached(x) and not w.sched.ts[x].finished and w.enabled(x)]
+                while loose and rng.random() < 0.4:
+                    w.step(rng.choice(loose))
+                    loose = [x for x in w.workers if w.detached(x) and not w.sched.ts[x].finished and w.enabled(x)]
             if name in C_EXPECT:
                 who, want = 'consumer', C_EXPECT[name]
                 p = w.pending(who)
@@ -569,7 +676,8 @@ POLICIES = ('uniform', 'consumer-eager', 'workers-eager', 'reverse', 'one-slow',
 
 def random_run(call, rng, policy, api=None, prefix=None, max_steps=3000, body=None):
     """One call of the real ThreadPool under a random schedule. Returns the world (closed)."""
-    w = PoolWorld(call['n'], call['fail'], call['raise_mode'], call['size'], call['entry'], api=api, body=body)
+    w = PoolWorld(call['n'], call['fail'], call['raise_mode'], call['size'], call['entry'], api=api, body=body,
+                  more=call.get('more'))
     try:
         slow = None
         burst = None
@@ -699,9 +807,11 @@ def end_to_end_order(ctx, rng, thorough):
 
 
 
-def mc_consts(variants, minn, maxn, sizes, entries=ENTRIES, modes=(True, False)):
+def mc_consts(variants, minn, maxn, sizes, entries=ENTRIES, modes=(True, False), maxcalls=1):
+    variants = _v(variants)
     return {'MinN': minn, 'MaxN': maxn, 'Sizes': frozenset(sizes), 'Entries': frozenset(entries),
-            'Modes': frozenset(modes), 'SeqRaises': variants['SeqRaises'], 'StarByCount': variants['StarByCount']}
+            'Modes': frozenset(modes), 'SeqRaises': variants['SeqRaises'], 'StarByCount': variants['StarByCount'],
+            'MaxCalls': maxcalls, 'FreshQueues': variants['FreshQueues']}
 
 
 TRACE_INVS = ['OrderedPrefixX', 'DoneCompleteX', 'RaisedSound', 'StuckFree', 'CounterOK']
@@ -713,9 +823,10 @@ def validate_traces(ctx, name, variants, records):
     tf = os.path.join(d, 'batch.json')
     with open(tf, 'w') as f:
         json.dump(records, f)
-    maxn = max([r['n'] for r in records] + [1])
+    maxn = max([r['n'] for r in records] + [e['call']['n'] for r in records for e in r['ev'] if 'call' in e] + [1])
+    maxcalls = max([1] + [1 + sum(1 for e in r['ev'] if 'call' in e) for r in records])
     sizes = sorted(set(r['size'] for r in records))
-    mp, cp = tlc.write_mc(d, 'Trace_Pool', 'MC_Trace_Pool', consts=mc_consts(variants, 0, maxn, sizes),
+    mp, cp = tlc.write_mc(d, 'Trace_Pool', 'MC_Trace_Pool', consts=mc_consts(variants, 0, maxn, sizes, maxcalls=maxcalls),
                           spec='TraceSpec', invariants=TRACE_INVS, post='TraceAccepted')
     r = tlc.run(mp, cp, d, workers=1, coverage=False, env={'TRACE_FILE': tf}, timeout=1800)
     if r.error and r.violated is None:
@@ -765,13 +876,21 @@ TARGETS = [   # (name, constants, state predicate): adversarial situations reach
      'cpc = "fDoneR" /\\ Len(resultQ) = 1'),
     ('starmap-single-item-through-the-pool', dict(minn=1, maxn=1, sizes=[2], entries=['star2'], modes=[False]),
      'cpc = "join" /\\ unfinished = 0 /\\ phase = 1 /\\ entry = "pool" /\\ ~StarByCount'),
+    # a call ended by an exception while results that arrived ahead of their turn are buffered; the pool object is
+    # used again (the continuation runs a second call of three items on it)
+    ('second-call-after-abort-with-buffered-results', dict(minn=3, maxn=3, sizes=[3], entries=['imap'], modes=[True],
+                                                          more=[dict(n=3, fail=[], raise_mode=False, entry='imap')]),
+     'cpc = "done" /\\ raised = 0 /\\ Cardinality(buf) = 2 /\\ calls = 1'),
+    ('second-call-while-a-worker-of-the-first-still-runs', dict(minn=3, maxn=3, sizes=[3], entries=['imap'], modes=[True],
+                                                               more=[dict(n=3, fail=[], raise_mode=True, entry='imap')]),
+     'cpc = "done" /\\ raised = 0 /\\ hold[2] = "put" /\\ calls = 1'),
 ]
 
 
 def model_check(ctx, name, variants, minn, maxn, sizes, reduced=False, workers=16, invariants=INVS, entries=ENTRIES,
-                modes=(True, False), timeout=3000):
+                modes=(True, False), timeout=3000, maxcalls=1):
     d = ctx.sub('mc-' + name)
-    mp, cp = tlc.write_mc(d, 'Pool', 'MC_Pool', consts=mc_consts(variants, minn, maxn, sizes, entries, modes),
+    mp, cp = tlc.write_mc(d, 'Pool', 'MC_Pool', consts=mc_consts(variants, minn, maxn, sizes, entries, modes, maxcalls),
                           invariants=invariants, constraint='StartFirst' if reduced else None)
     if reduced:
         with open(cp, 'a') as f:
@@ -818,7 +937,7 @@ def report_world_violation(ctx, w, variants, kind, text, extra=None):
 def probe_variants(ctx):
     """Does the real code follow the as-written decisions of the model?  The as-written model violates the property;
     its counterexample is forced on the real code."""
-    variants = {'SeqRaises': True, 'StarByCount': True}
+    variants = dict(GOOD)
     probes = [
         ('SeqRaises', dict(minn=2, maxn=2, sizes=[1], entries=['imap'], modes=[True]), SIG_SEQ,
          'ThreadPool(1) in raise mode hands the exc_info tuple of a failing item to the caller as if it were a result '
@@ -826,12 +945,17 @@ def probe_variants(ctx):
         ('StarByCount', dict(minn=2, maxn=2, sizes=[2], entries=['star1'], modes=[False]), SIG_STAR,
          'starmap/starcall with one-element argument tuples run only the first item and return one result for '
          'several inputs (len(args[0]) == 1 tests the arity of the first tuple, not the number of items)'),
+        ('FreshQueues', dict(minn=2, maxn=2, sizes=[2], entries=['imap'], modes=[True, False], maxcalls=2), SIG_REUSE,
+         'a ThreadPool object used for a second call after a call that was ended by an exception: a worker of the first call '
+         'that was still running delivers its result into the queue of the pool object, and the second call hands it out '
+         'as the result of its own item with the same index'),
     ]
     for flag, c, sig, text in probes:
-        v = {'SeqRaises': True, 'StarByCount': True}
+        v = dict(GOOD)
         v[flag] = False
-        r = model_check(ctx, 'aswritten-' + flag, v, c['minn'], c['maxn'], c['sizes'], workers=2,
-                        invariants=['OrderedPrefix', 'DoneComplete'], entries=c['entries'], modes=c['modes'], timeout=300)
+        r = model_check(ctx, 'aswritten-' + flag, v, c['minn'], c['maxn'], c['sizes'], workers=2 if flag != 'FreshQueues' else 6,
+                        invariants=['OrderedPrefix', 'DoneComplete'], entries=c['entries'], modes=c['modes'], timeout=600,
+                        maxcalls=c.get('maxcalls', 1))
         if r.violated not in ('OrderedPrefix', 'DoneComplete') or not r.trace:
             raise tlc.MachineryError('the as-written variant %s=FALSE is expected to violate the property in the model: %r\n%s'
                                      % (flag, r, r.out[-1500:]))
@@ -865,7 +989,7 @@ def run(ctx):
 
     # (A) which variant does the code follow?  (the as-written variants violate the property in the model)
     variants = probe_variants(ctx)
-    good = {'SeqRaises': True, 'StarByCount': True}
+    good = dict(GOOD)
     ctx.log('code follows variants %s' % variants)
 
     # (M) exhaustive model checking
@@ -882,6 +1006,11 @@ def run(ctx):
             'n0-4.size4': lambda: model_check(ctx, 'b', good, 0, 4, [4], reduced=True, workers=6),
             'n5-6.size2': lambda: model_check(ctx, 'c', good, 5, 6, [2], reduced=True, workers=5, entries=['imap']),
         }
+    # several calls on one pool object: every way the first call can end x every second call
+    plan['two-calls.n0-2.sizes1-2'] = lambda: model_check(ctx, 'r', good, 0, 2, [1, 2], workers=4, maxcalls=2)
+    if thorough:
+        plan['two-calls.n3.size2-3'] = lambda: model_check(ctx, 'r3', good, 3, 3, [2, 3], reduced=True, workers=6, maxcalls=2,
+                                                           entries=['imap'])
     plan['liveness'] = lambda: tlc.run(*_live_cfg(ctx, good), workers=2, timeout=3000, coverage=False)
     if variants != good:
         plan['as-written'] = lambda: model_check(ctx, 'w', variants, 0, 3, [1, 2], workers=2,
@@ -900,7 +1029,7 @@ def run(ctx):
         ctx.add_tlc('Pool/' + name, r)
         if name == 'liveness' or name == 'as-written':
             continue
-        for a in POOL_ACTIONS:
+        for a in POOL_ACTIONS + (['NewCallWith'] if name.startswith('two-calls') else []):
             if r.coverage.get(a, (0, 0))[1] == 0:
                 raise tlc.MachineryError('vacuity: action %s never taken in %s' % (a, name))
         if 'sizes1' in name:
@@ -911,16 +1040,17 @@ def run(ctx):
     # (R) spec -> code, 1: simulated behaviours of the model forced on the real pool
     seen_actions = set()
     top = 5 if thorough else 4
-    sims = [('pool', 2, top, [2, 3, 4] if thorough else [2, 3], 900 if thorough else 150),
-            ('seq', 0, 3, [1], 150 if thorough else 40),
-            ('mixed', 0, top, [1, 2, 3], 450 if thorough else 70)]
+    sims = [('pool', 2, top, [2, 3, 4] if thorough else [2, 3], 900 if thorough else 150, 1),
+            ('seq', 0, 3, [1], 150 if thorough else 40, 1),
+            ('mixed', 0, top, [1, 2, 3], 450 if thorough else 70, 1),
+            ('two-calls', 1, 3, [2, 3], 400 if thorough else 80, 2)]
     nb = 0
     bad = False
-    for sname, lo, hi, sizes, nsim in sims:
+    for sname, lo, hi, sizes, nsim, maxcalls in sims:
         d = ctx.sub('sim-' + sname)
-        mp, cp = tlc.write_mc(d, 'Pool', 'MC_PoolSim', consts=mc_consts(variants, lo, hi, sizes))
+        mp, cp = tlc.write_mc(d, 'Pool', 'MC_PoolSim', consts=mc_consts(variants, lo, hi, sizes, maxcalls=maxcalls))
         prefix = os.path.join(d, 'beh')
-        r = tlc.run(mp, cp, d, workers=1, simulate='file=%s,num=%d' % (prefix, nsim), depth=200, seed=ctx.seed + 15,
+        r = tlc.run(mp, cp, d, workers=1, simulate='file=%s,num=%d' % (prefix, nsim), depth=200 * maxcalls, seed=ctx.seed + 15,
                     coverage=False, timeout=900)
         nb0 = nb
         for f, beh in tlc.sim_traces(prefix):
@@ -930,6 +1060,8 @@ def run(ctx):
             c = call_of(beh[0][1])
             api = rng.choice(APIS[c['entry']])
             status, detail, w = replay_behaviour(beh, rng, api=api)
+            if status == 'ok' and not w.judge() is None and known_class(w, variants, w.judge()[0]) is None:
+                status, detail = 'problem', w.judge()[1]
             ctx.cov['replayed_behaviours'] += 1
             ctx.cov['replayed_steps'] += len(beh) - 1
             acts = tuple(a for a, _ in beh[1:])
@@ -985,8 +1117,12 @@ def run(ctx):
                                    {'behaviour': [a for a, _ in r.trace], 'detail': detail})
             continue
         # same prefix again, continued to the end by a random schedule, validated as a trace below
-        w2 = random_run(call_of(r.trace[0][1]), rng, 'uniform', prefix=list(w.schedule))
-        worlds.append(('target:' + tname, w2))
+        for rep_ in range(6 if c.get('more') else 1):
+            cc = call_of(r.trace[0][1])
+            if c.get('more'):
+                cc['more'] = [dict(m) for m in c['more']]
+            w2 = random_run(cc, rng, rng.choice(POLICIES) if rep_ else 'uniform', prefix=list(w.schedule))
+            worlds.append(('target:' + tname, w2))
     ctx.log('forced %d adversarial situations' % len(TARGETS))
     missing = [a for a in POOL_ACTIONS + ['SingleCall', 'SeqCall'] if a not in seen_actions]
     if missing and not bad:
@@ -1004,6 +1140,12 @@ def run(ctx):
         nf = rng.choice([0, 1, 1, 2, 3, n])
         fail = sorted(rng.sample(range(n), min(nf, n))) if n else []
         call = dict(n=n, fail=fail, raise_mode=raise_mode, size=size, entry=entry)
+        if rng.random() < 0.3:
+            # the pool object is used for a second call
+            e2 = rng.choice(['imap', 'imap', 'star1', 'star2'])
+            n2 = rng.choice([0, 1, 2, 3, 4, 5, 6]) if e2 == 'imap' else rng.choice([1, 2, 3, 4, 5])
+            call['more'] = [dict(n=n2, fail=sorted(rng.sample(range(n2), min(rng.choice([0, 0, 1, 2]), n2))) if n2 else [],
+                                 raise_mode=rng.random() < 0.5, entry=e2, api=rng.choice(APIS[e2]))]
         w = random_run(call, rng, rng.choice(POLICIES), api=rng.choice(APIS[entry]))
         worlds.append(('random', w))
     for kind, w in worlds:
@@ -1046,7 +1188,8 @@ def run(ctx):
         'worker threads are interchangeable: the model counts workers per program point (quotient under renaming)',
         'item functions raise subclasses of Exception; a BaseException in a worker (thread dies without task_done) and '
         'results that look like exc_info tuples are outside the model',
-        'the ThreadPool object is used for one call (as everywhere in mapproxy); reuse after a forced shutdown is not modelled',
+        'a ThreadPool object is used for one call everywhere in mapproxy; two calls on one object are modelled (NewCall) '
+        'and exercised, a third call is not',
         ('exhaustive instances (thorough): n <= 4 x pool sizes 1-4 unreduced; n = 5 x sizes 2-4 and n = 6 x sizes 2-3 with '
          'the two documented sound reductions (workers start first; result mode explores none/each single/all failing); '
          if thorough else
@@ -1078,7 +1221,8 @@ def replay(ctx, data):
     if not call or 'schedule' not in case:
         print('nothing to replay')
         return 0
-    c = dict(n=call['n'], fail=call['fail'], raise_mode=call['raise'], size=call['size'], entry=call['entry'])
+    c = dict(n=call['n'], fail=call['fail'], raise_mode=call['raise'], size=call['size'], entry=call['entry'],
+             more=call.get('more'))
     w = random_run(c, ctx.rng, 'uniform', api=call.get('api'), prefix=case['schedule'], max_steps=0)
     finished = w.all_finished()
     w2 = None
@@ -1091,8 +1235,8 @@ def replay(ctx, data):
     if j is not None:
         print('property violated on the real code: %s' % j[1])
         rc = 1
-    variants = case.get('variants') or {'SeqRaises': True, 'StarByCount': True}
-    r, rejected = validate_traces(ctx, 'replay', {'SeqRaises': True, 'StarByCount': True}, [(w2 or w).record()])
+    variants = case.get('variants') or dict(GOOD)
+    r, rejected = validate_traces(ctx, 'replay', dict(GOOD), [(w2 or w).record()])
     print('trace validation against the specification (repaired variants): %s' % (
         'rejected %r' % (rejected,) if rejected else 'accepted'))
     if rejected:
